@@ -268,6 +268,12 @@ def encryptFrag (sc : Scheme) (subs : List Nat) (f : Frag) : Option Frag :=
     | _ => none
   | _ => none
 
+/-- `EncryptFragment` as its caller sees it, with the length of the IV passed in: an 8-byte IV is zero-extended to 16
+    bytes before anything else is looked at — the size check of `subsOk` and the boxes written both use the 16-byte
+    IV — and any length other than 8 or 16 is refused -/
+def encryptFragIV (ivLen : Nat) (sc : Scheme) (subs : List Nat) (f : Frag) : Option Frag :=
+  if ivLen = 8 ∨ ivLen = 16 then encryptFrag sc subs f else none
+
 /-- the same step for every traf that has parameters (by track ID), saio offsets by position -/
 def encChildren (ps : Nat → Option (Scheme × List Nat)) : List MoofChild → Nat → Option (List MoofChild)
   | [], _ => some []
